@@ -160,7 +160,9 @@ def s_owned(rng, depth, variant=None):
             Inv("invariant_last_not_b", fail_if(asm.eq_const(last, SENDER_B), "flag")),
             Inv("invariant_last_not_c", fail_if(asm.eq_const(last, SENDER_C)))]
     flt = pick(rng, variant, [{}, {"targetSenders": [owner]}, {"excludeSenders": [owner]}, {"targetSenders": [SENDER_C]},
-                              {"targetSenders": [SENDER_B, SENDER_C]}, {"excludeSenders": [SENDER_B, SENDER_C]}])
+                              {"targetSenders": [SENDER_B, SENDER_C]}, {"excludeSenders": [SENDER_B, SENDER_C]},
+                              {"targetSenders": [owner], "excludeSenders": [owner]},
+                              {"targetSenders": [SENDER_A, SENDER_B, SENDER_C], "excludeSenders": [owner]}])
     return Scenario("InvOwned", [tgt], invs, filters=dict(flt), senders=[SENDER_A, SENDER_B, SENDER_C], kind="owned")
 
 
@@ -212,6 +214,14 @@ def s_two(rng, depth, variant=None):
         {"targetContracts": [A], "excludeContracts": [A]},
         {"targetSelectors": [(B, [sel("bump()")])], "excludeSelectors": [(B, [sel("bump()")])]},
         {"excludeContracts": [B], "targetSelectors": [(B, [sel("zero()"), sel("bump()")])]},
+        # the same contract in several filters at once
+        {"excludeContracts": [B], "targetSelectors": [(B, [sel("bump()")])]},
+        {"excludeContracts": [A], "targetSelectors": [(A, a_sels[:1])]},
+        {"targetContracts": [A, B], "excludeContracts": [B], "targetSelectors": [(B, [sel("bump()")])]},
+        {"targetContracts": [A], "excludeContracts": [B], "targetSelectors": [(B, [sel("bump()")])]},
+        {"targetContracts": [A, B], "excludeContracts": [A]},
+        {"excludeSelectors": [(B, [sel("zero()")])], "targetSelectors": [(B, [sel("zero()"), sel("bump()")])]},
+        {"excludeContracts": [A, B], "targetSelectors": [(B, [sel("bump()")]), (A, a_sels[:1])]},
     ])
     return Scenario("InvTwo", [a, b], invs, filters=dict(flt), kind="two")
 
@@ -318,6 +328,81 @@ def replay_lines(batch, scn, block, inv_name):
     sel = asm.selector(f"{inv_name}()").to_bytes(4, "big") if inv_name else b""
     inv_idx = batch.call(FOUNDRY_TEST, sel) if inv_name else None
     return idxs, inv_idx
+
+
+# ------------------------------------------------------------------------------------------------ filters: code vs Spec, directly
+
+
+def check_filters_direct(ctx):
+    """every combination of target/exclude contracts and target/exclude selectors over two targets (each possibly in several
+    filters at once) through the real resolve_target_contracts / resolve_target_selectors, against the Foundry rules
+    (vlib/e2e.Scenario.targeted / callable_of). Selector entries are non-empty (an empty entry is skipped by Foundry and kept as a
+    key by halmos: recorded in Props/C15.lean, outside this comparison)."""
+    import itertools
+    import types
+    from types import MappingProxyType
+
+    from vlib.artifacts import build, reset_halmos_state
+    from vlib.impl import use_repo
+
+    use_repo()
+    import halmos.__main__ as hm
+    from halmos.exceptions import HalmosException
+    from halmos.sevm import FOUNDRY_TEST as FT, con_addr
+    from halmos.solve import InvariantTestingContext
+
+    rng = random.Random(7)
+    a, _ = t_counter(rng, "CounterA")
+    b = Target("CounterB", [TFn("bump()", [0, "SLOAD", 2, "ADD", 0, "SSTORE"]), TFn("zero()", [0, 0, "SSTORE"]),
+                            TFn("get()", asm.return_word([0, "SLOAD"]), mutability="view")])
+    a.addr, b.addr = FIRST_CREATED, FIRST_CREATED + 1
+    A, B = a.addr, b.addr
+    jsons = {A: build(a.desc()).contract_json, B: build(b.desc()).contract_json}
+    a_sels = [asm.selector(f.canon) for f in a.fns if f.mutability != "view"]
+    b_sels = [asm.selector("bump()"), asm.selector("zero()")]
+    subsets = [[], [A], [B], [A, B]]
+    sel_opts = [[], [(A, a_sels[:1])], [(B, b_sels[:1])], [(A, a_sels[:1]), (B, b_sels)], [(B, b_sels[1:])], [(A, a_sels), (A, a_sels[:1])]]
+    ex = types.SimpleNamespace(code={FT: None, con_addr(A): None, con_addr(B): None})
+
+    def to_map(entries):
+        d = {}
+        for addr, sels in entries:
+            d.setdefault(con_addr(addr), []).extend(s.to_bytes(4, "big") for s in sels)
+        return MappingProxyType({k: frozenset(v) for k, v in d.items()})
+
+    for tc, xc, ts, xs in itertools.product(subsets, subsets, sel_opts, sel_opts):
+        flt = {"targetContracts": tc, "excludeContracts": xc, "targetSelectors": ts, "excludeSelectors": xs}
+        scn = Scenario("F", [a, b], [], filters=flt)
+        inv = InvariantTestingContext(
+            target_senders=frozenset(), target_contracts=frozenset(con_addr(x) for x in tc), target_selectors=to_map(ts),
+            excluded_senders=frozenset(), excluded_contracts=frozenset(con_addr(x) for x in xc), excluded_selectors=to_map(xs))
+        try:
+            got = sorted(x.as_long() for x in hm.resolve_target_contracts(inv, ex))
+        except HalmosException:
+            got = []
+        want = sorted(t.addr for t in scn.targeted())
+        key = "+".join(k for k, v in flt.items() if v) or "nofilter"
+        overlap = []
+        if set(tc) & set(xc):
+            overlap.append("target&exclude-contract")
+        if set(xc) & {x for x, _ in ts}:
+            overlap.append("excluded-contract-with-targetSelector")
+        if {x for x, _ in ts} & {x for x, _ in xs}:
+            overlap.append("target&exclude-selectors-same-contract")
+        ctx.case(f"filters-direct|{tc}|{xc}|{ts}|{xs}")
+        ctx.count("filters-direct:" + ("overlap" if overlap else "disjoint"))
+        if got != want:
+            ctx.violation(
+                f"filters-not-as-foundry|contracts|{'+'.join(overlap) or key}",
+                f"resolve_target_contracts with {flt} = {[hex(x) for x in got]}, Foundry rules give {[hex(x) for x in want]} "
+                f"(A={A:#x}, B={B:#x})", {"direct": True})
+            continue
+        for t in scn.targeted():
+            gs = sorted(sig for sig, _ in hm.resolve_target_selectors(inv, con_addr(t.addr), jsons[t.addr]))
+            ws = sorted(f.canon for f in scn.callable_of(t))
+            if gs != ws:
+                ctx.violation(f"filters-not-as-foundry|selectors|{'+'.join(overlap) or key}",
+                              f"resolve_target_selectors({t.name}) with {flt} = {gs}, Foundry rules give {ws}", {"direct": True})
 
 
 # ------------------------------------------------------------------------------------------------ the check
@@ -478,6 +563,7 @@ def make_item(seed, tmpl_idx, depth, mode=None, variant=None):
 
 
 def correspond(ctx):
+    check_filters_direct(ctx)
     items = []
     cdir = VERIF / "corpus" / "C15"
     if cdir.exists():
@@ -486,7 +572,14 @@ def correspond(ctx):
             items.append(make_item(d["seed"], d["tmpl"], d["depth"], d.get("mode"), d.get("variant")))
     # directed: the Block-fields case of dedup_only_identical_cex (states differing only in block.number)
     items.append(make_item(1, TEMPLATES.index(s_clock), 2, "roll"))
-    n = ctx.scale(39, 390)
+    # directed: every filter setting of the two-target template (incl. one contract in several filters at once), and the
+    # sender settings with an address in both lists
+    n_two = 19
+    for v in range(n_two):
+        items.append(make_item(1000 + v, TEMPLATES.index(s_two), 2, variant=v))
+    for v in (6, 7):
+        items.append(make_item(2000 + v, TEMPLATES.index(s_owned), 1, variant=v))
+    n = ctx.scale(30, 390)
     for i in range(n):
         t = i % len(TEMPLATES)
         depth = [1, 2, 2, 0, 2, 1, 3][i % 7]
@@ -501,6 +594,9 @@ def correspond(ctx):
 
 
 def replay(ctx, data) -> bool:
+    if data.get("direct"):
+        check_filters_direct(ctx)
+        return bool(ctx.violations)
     spec = data.get("spec")
     if not spec:
         return False
